@@ -2,18 +2,17 @@
 from ekw import c01_real, ctrl_check
 
 PROPERTY = "C01"
-LEVEL_TEXT = ("Lean theorems over the small-step system controller x abstract executors (Model/Ctrl.lean): in every reachable state every stored copy "
-              "and every delivered output equals the sequential denotation `den` (seqEval: tasks in order); when run() returns every requested "
-              "output has been delivered with that value and every task ran exactly once (c01_outputs_sequential, c01_return_complete); two finished runs on "
-              "different clusters/placements/event orders agree (c01_independent); on every feasible cluster the run cannot spin (bounded loop iterations), never "
-              "waits with nothing outstanding and never raises, for ANY event order (c01_run_delivers; executor fairness is the only assumption left to "
-              "'every run returns the requested outputs'). "
-              "Proved from the 7-tier system invariant (InvAll, ~90 conjuncts) by induction over steps, for any order/batching of events and any "
-              "interleaving of executor steps. Tied to the real controller by per-phase state correspondence (SimBridge) and a sequential-"
-              "interpreter oracle; the path from the controller's commands to the execution of a task (runner argument binding, output "
-              "publication, shm, data server, zmq) is not proved but sampled end to end: random jobs of real callables run on real local "
-              "clusters and every requested value is compared with a sequential interpreter of the JobInstance.")
-LEVEL_NOTE = ("modelled, not verified: scheduler/api.py initialize/plan, scheduler/assign.py build_assignment + the pops of _assignment_heuristic, controller/act.py act/flush_queues, controller/notify.py notify/consider_*, impl.run loop skeleton (Model/Ctrl.lean, one Lean function per Python function). Abstracted as an oracle argument validated for admissibility by the model and supplied from what the real run chose: which (idle worker, computable task) pairs the distance/overhead heuristics and host->component migration pick per round, and which `available` host is the transmit source; theorems quantify over all admissible choices. Executors are abstract (Env; SimBridge mirrors it): a dispatched task runs once its inputs are on its host and publishes outputs in index order; transmit/fetch read the source store; purge is immediate. Hypothesis WF: tasks topologically numbered, inputs duplicate-free, >=1 output per task, requested outputs exist, worker ids distinct (the generator guarantees it). Fixed on the way: completion of a multi-output task was inferred from the notice of its LAST output, so under any-order delivery a run could spin, wait forever or exit early (fix commit d9c96b4, finding C01-last-output-overtakes now status fixed; corpus witnesses kept as regression inputs). Task values are uninterpreted terms: argument binding inside a task is C10, byte-faithful copies are C07, real (cloud)pickle is sampled only. Sampled, not modelled (harness/ekw/c01_real.py, 3 runs quick / 40 thorough): executor/runner/runner.py run (statics, positional and keyword edges, keyword edges into defaulted parameters, generator outputs in declaration order), runner/memory.py, runner/entrypoint.py, executor/executor.py, data_server.py and the zmq/shm transport, by end-to-end runs of the real controller.impl.run + Bridge + forked executors on 1-2 hosts x 1-2 workers against a sequential interpreter.")
+LEVEL_TEXT = ("Lean theorems over the small-step system controller x abstract executors (Model/Ctrl.lean, extended system Model/Sched.lean): in every reachable state "
+              "every stored copy and every delivered output equals the sequential denotation `den` (c01_store_sound, c01_outputs_sound); EVERY REQUESTED DATASET IS "
+              "DELIVERED: from every reachable state, for any job, feasible cluster, admissible heuristic choice, event order and interleaving, it is inevitable - on "
+              "every maximal execution, after finitely many steps - that run() returns with every requested output delivered with the sequential value and every task "
+              "run exactly once (c01_delivers, c01_run_returns_outputs; termination is a theorem: well-founded measure + deadlock freedom, Lemmas/SchedTerm*.lean); "
+              "two finished runs on different clusters/placements/event orders agree (c01_independent); c01_outputs_sequential / c01_return_complete / "
+              "c01_run_delivers as before. Props/C01.lean exhibits reachable finished states with non-empty requested sets (one host; two hosts with a transfer, a "
+              "late transfer notice and purges). Tied to the real controller by per-phase state correspondence (SimBridge) and a sequential-interpreter oracle, incl. "
+              "the results a gateway-driven run reports through the real Reporter; the path from the controller's commands to the execution of a task (runner "
+              "argument binding, output publication, shm, data server, zmq) is not proved but sampled end to end on real local clusters. ")
+LEVEL_NOTE = ("modelled, not verified: scheduler/api.py initialize/plan, scheduler/assign.py build_assignment + the pops of _assignment_heuristic, controller/act.py act/flush_queues, controller/notify.py notify/consider_*, impl.run loop skeleton (Model/Ctrl.lean, one Lean function per Python function). Abstracted as an oracle argument validated for admissibility by the model and supplied from what the real run chose: which (idle worker, computable task) pairs the distance/overhead heuristics and host->component migration pick per round, and which `available` host is the transmit source; theorems quantify over all admissible choices. Executors are abstract (Env; SimBridge mirrors it): a dispatched task runs once its inputs are on its host and publishes outputs in index order; transmit/fetch read the source store; purge is immediate. Hypothesis WF: tasks topologically numbered, inputs duplicate-free, >=1 output per task, requested outputs exist, worker ids distinct (the generator guarantees it). Fixed on the way: completion of a multi-output task was inferred from the notice of its LAST output, so under any-order delivery a run could spin, wait forever or exit early (fix commit d9c96b4, finding C01-last-output-overtakes now status fixed; corpus witnesses kept as regression inputs). Task values are uninterpreted terms: argument binding inside a task is C10, byte-faithful copies are C07, real (cloud)pickle is sampled only. Sampled, not modelled (harness/ekw/c01_real.py, 3 runs quick / 40 thorough): executor/runner/runner.py run (statics, positional and keyword edges, keyword edges into defaulted parameters, generator outputs in declaration order), runner/memory.py, runner/entrypoint.py, executor/executor.py, data_server.py and the zmq/shm transport, by end-to-end runs of the real controller.impl.run + Bridge + forked executors on 1-2 hosts x 1-2 workers against a sequential interpreter. Since the audit response: commands are interpreted with what they carry (TaskSequence.publish: a body publishes only the outputs named; the controller names all), termination is proved (Lemmas/SchedTerm*.lean; hypotheses WF, WFC, Feasible), the transmit source the real run took is additionally compared with the model's scan over the recorded iteration order of ds2host (another `available` host than the first is tolerated and counted).")
 TECHNIQUE = "Lean 4 inductive system invariant (StoreSound + fetch pipeline) over a small-step transition system, with differential state correspondence against the real controller driven through SimBridge"
 LEAN_PROPS = ["EkwVerif.Props.C01"]
 LEAN_DRIVERS = ["Ctrl"]
